@@ -74,6 +74,12 @@ handlers (an exception means that assignment did not happen).  A local that hold
 where the paths meet (`x = None ... if c: x = f()`) is an Optional[T]: the translator notices the clash, records
 x : Optional[T] and translates the function again with None / a T coerced to `None` / `Some v` at every assignment of x
 (by name-independent inference; the function spec key "locals": {name: Ty} can declare such types up front).
+  stmt_blk(fn, s, rest, env, k, live, live_rest) -> None | Gallina text of the block `s; rest`      [srcpm]
+                              consulted first for every statement: statement forms only that unit translates (`while`,
+                              `continue`, other loops, subscripted stores, tests / arguments that call primitives - see
+                              pygal_procman.py); None = the statement is translated as usual
+  live_in(stmts, live)     -> the names that may be read by `stmts` or after them (`live`): a sharper liveness analysis
+                              than the default "every name that occurs"                            [srcpm]
 Function spec keys on top of pygal's: "ret" (Ty: the function returns a value), "vararg" / "kwarg" ((name, Ty): the
 function has *name / **name, handed to the Gallina function as ordinary parameters of that opaque type; only the
 unit's primitives can look at them), "gparams" (text of extra implicit binders, e.g. "{pval : Type}").
@@ -150,6 +156,8 @@ def assigned(fn, stmts):
                 out.add(s.target.id)
             elif isinstance(s.target, ast.Tuple):                       # [srcloop]
                 out |= {e.id for e in s.target.elts if isinstance(e, ast.Name)}
+        elif isinstance(s, ast.While):       # [srcpm] `while` is translated by a unit hook (Ext.stmt_blk); its body re-binds
+            out |= assigned(fn, s.body) | assigned(fn, s.orelse)
         elif isinstance(s, ast.Expr) and getattr(fn.ext, "mutates", None) is not None:
             out |= set(fn.ext.mutates(s))
     return out
@@ -280,9 +288,19 @@ def tr_block(fn, stmts, env, k, live):
         return k(env)
     s, rest = stmts[0], stmts[1:]
     live_rest = names_used(rest) | live
+    if getattr(fn.ext, "live_in", None) is not None:     # [srcpm] a unit may supply a sharper liveness analysis
+        live_rest = fn.ext.live_in(rest, live)
     cont = lambda e: tr_block(fn, rest, e, k, live)      # noqa: E731
     if isinstance(s, ast.Expr) and isinstance(s.value, ast.Constant) and isinstance(s.value.value, str):
         return cont(env)                                 # docstring
+    # [srcpm] unit-specific statement forms (Ext.stmt_blk(fn, s, rest, env, k, live, live_rest) -> text | None): `while`,
+    # `continue`, loops over other iterables, subscripted stores, tests / arguments that call primitives
+    # (named stmt_blk since the merge: [srclabels]' hook further down is Ext.stmt_m, with another signature)
+    hook = getattr(fn.ext, "stmt_blk", None)
+    if hook is not None:
+        r = hook(fn, s, rest, env, k, live, live_rest)
+        if r is not None:
+            return r
     if is_logging(s) or isinstance(s, ast.Pass):
         return cont(env)                                 # logging does not influence the effects
     if isinstance(s, ast.Continue):                      # [srcloop]
